@@ -117,12 +117,26 @@ def specSent (ws : List String) : String :=
     | _ => false
   if items.all okItem then "ok" else "bad"
 
+/-- the last clause of the property, judged on the observation: a selector result `k` outside a candidate
+    list of `n` entries must have fallen back to the primary -/
+def specSel (ws : List String) : String :=
+  let k := ((field ws "k").bind String.toInt?).getD 0
+  let items := ((field ws "items").getD "").splitOn ","
+  let okItem (it : String) : Bool :=
+    match it.splitOn ":" with
+    | [role, n] =>
+      let n : Int := (n.toNat?.getD 0 : Nat)
+      if k < 0 || k ≥ n then role == "P" else true
+    | _ => false
+  if items.all okItem then "ok" else "bad"
+
 def step (_ : Unit) (ws : List String) : Unit × String :=
   match ws with
   | "sa" :: r => ((), standalone r)
   | "se" :: r => ((), sentinel r)
   | "cl" :: r => ((), cluster r)
   | "!sent" :: r => ((), specSent r)
+  | "!sel" :: r => ((), specSel r)
   | _ => ((), "bad-op")
 
 def main : IO Unit := Hex.lineLoop () step
